@@ -1,3 +1,4 @@
+import GraphSlam.Real.Instance
 import GraphSlam.Generated.PoseSE3
 import GraphSlam.Generated.PoseSE2
 
